@@ -14,7 +14,9 @@ def build_evidence(prop, tier, seed, tasks, results, violations, machinery,
     fam_counts = Counter()
     known_hits = Counter()
     functions = set()
+    ncross = 0
     for t, r in zip(tasks, results):
+        ncross += int(r.get('native_crosschecks') or 0)
         v = r.get('verdict', '?')
         verdicts[v] += 1
         paths += int(r.get('paths') or 0)
@@ -71,6 +73,10 @@ def build_evidence(prop, tier, seed, tasks, results, violations, machinery,
         'families': dict(fam_counts),
         'known_finding_hits': dict(known_hits),
         'tolerated_known_findings': sorted(tolerated),
+        'native_crosschecks': ncross,
+        'native_crosschecks_note': ('after the symbolic run, the same harness executed by the real interpreter on '
+                                    'concrete configurations of the case (validation of the encoding: CrossHair\'s '
+                                    'models of built-ins are not CPython); a native failure is reported as a counterexample'),
         'machinery_errors': machinery[:20],
         'functions_encoded': sorted(functions),
         'exhaustive': False,
